@@ -25,6 +25,7 @@ func init() {
 	register(&core.Rule{ID: "R-TERMINAL", Props: []string{"C01", "C11"}, Doc: "truth table of (*Item).HasWork over every ItemState constant: false exactly on {Completed, Seen, Failed}; the set of constants is the reviewed eight", Run: ruleTerminal})
 	register(&core.Rule{ID: "R-MARK", Props: []string{"C01", "C11"}, Doc: "markCompleted: only status store writes ItemCompleted, guarded by status∈{GotChildren,GotRedirected} and (no children or no child HasWork), after recursing into every child; allChildrenCompleted returns true only if no child HasWork; CompleteAndCheck returns !HasWork() after markCompleted", Run: ruleMark})
 	register(&core.Rule{ID: "R-LEVEL", Props: []string{"C01"}, Doc: "preprocess, archive, postprocess and both SeencheckItem obtain their work list from X.GetNodesAtLevel(X.GetMaxDepth()) with the same receiver X", Run: ruleLevel})
+	register(&core.Rule{ID: "R-POST-PROGRESS", Props: []string{"C01"}, Doc: "postprocessItem never leaves an Archived item Archived: on every path behind its `status == ItemArchived` gate the item's status is changed (SetStatus on the item) or it receives a child (AddChild sets GotRedirected/GotChildren) before the function returns — an item left Archived has work forever, so its seed is fed back for ever and never reported", Run: rulePostProgress})
 	register(&core.Rule{ID: "R-PRE-EXITS", Props: []string{"C01"}, Doc: "preprocess returns only (a) after the request-building loop covered the whole work list, (b) when a work list is empty, or (c) when the element at hand is the seed itself (IsSeed, or neither IsChild nor IsRedirection; also through a helper predicate whose true-returns are so guarded); the whole seed is marked Completed/Failed only under `len(list)==0`", Run: rulePreExits})
 	register(&core.Rule{ID: "R-STATUS-WRITERS", Props: []string{"C01", "C11"}, Doc: "Item.status is stored only in SetStatus/AddChild/markCompleted/NewItem; SetStatus(const) call sites stay within the per-package transition table", Run: ruleStatusWriters})
 }
@@ -1383,4 +1384,71 @@ func reachableWithoutJustification(fn *ssa.Function, ret ssa.Instruction, loop i
 	}
 	res := ir.Reach([]ir.Pt{ir.Entry(fn)}, ir.Opts{EdgeOK: func(b *ssa.BasicBlock, s int) bool { return !cut[edge{b, s}] }})
 	return res.Reached[ret]
+}
+
+func rulePostProgress(r *core.Reporter) {
+	p := r.P
+	states, _ := itemStates(p)
+	pi := p.Func(rel(pkgPost), "postprocessItem")
+	if pi == nil || len(pi.Params) == 0 {
+		r.Undecided("postprocessItem", "", "anchor not found")
+		return
+	}
+	r.Analysed(pi)
+	item := pi.Params[0]
+	// the gate: status == ItemArchived (the other side returns at once)
+	var gate *ir.IfInfo
+	for _, ii := range ir.Ifs(pi) {
+		a := ii.Atom
+		if a.V != nil || a.Op != token.EQL {
+			continue
+		}
+		c, ok := a.X.(*ssa.Call)
+		v, okc := ir.ConstInt(a.Y)
+		if ok && okc && ir.IsCallTo(c, "(*"+pkgModels+".Item).GetStatus") && ir.SameValue(c.Call.Args[0], item) && v == states["ItemArchived"] {
+			iic := ii
+			gate = &iic
+		}
+	}
+	if gate == nil {
+		r.Undecided("postprocessItem/archived-gate", fnPos(p, pi), "the `status == ItemArchived` test was not found")
+		return
+	}
+	progress := func(in ssa.Instruction) bool {
+		if recv, _, ok := setStatusConst(in); ok && ir.SameValue(recv, item) {
+			return true
+		}
+		if c, ok := in.(*ssa.Call); ok && ir.IsCallTo(c, "(*"+pkgModels+".Item).AddChild") && ir.SameValue(c.Call.Args[0], item) {
+			return true
+		}
+		return false
+	}
+	// leaving through `item.HasChildren()` / `item.HasRedirection()` / `status == ItemFailed` being true means the
+	// status is already something else than Archived (those predicates are status tests)
+	type edge struct {
+		b *ssa.BasicBlock
+		s int
+	}
+	fine := map[edge]bool{}
+	for _, ii := range ir.Ifs(pi) {
+		for _, nm := range []string{"HasChildren", "HasRedirection"} {
+			if c := ir.BoolCallAtom(ii.Atom, "(*"+pkgModels+".Item)."+nm); c != nil && ir.SameValue(c.Call.Args[0], item) {
+				fine[edge{ii.If.Block(), ii.EdgeWhen(true)}] = true
+			}
+		}
+		a := ii.Atom
+		if a.V == nil && a.Op == token.EQL && ii.If != gate.If {
+			if c, ok := a.X.(*ssa.Call); ok && ir.IsCallTo(c, "(*"+pkgModels+".Item).GetStatus") && ir.SameValue(c.Call.Args[0], item) {
+				if v, okc := ir.ConstInt(a.Y); okc && v != states["ItemArchived"] {
+					fine[edge{ii.If.Block(), ii.EdgeWhen(true)}] = true
+				}
+			}
+		}
+	}
+	start := ir.EdgePt(gate.If.Block(), gate.EdgeWhen(true))
+	if ret, bad := ir.PathExists([]ir.Pt{start}, ir.Opts{Stop: progress, EdgeOK: func(b *ssa.BasicBlock, sidx int) bool { return !fine[edge{b, sidx}] }}, ir.IsExit); bad {
+		r.Violated("postprocessItem/leaves-archived", p.InstrPos(ret), "postprocessItem can return with the item still Archived (no SetStatus, no AddChild on that path): the item has work forever, the seed is fed back again and again and is never reported finished")
+	} else {
+		r.Held("postprocessItem/leaves-archived", 1, "behind the Archived gate every path completes the item or gives it a child")
+	}
 }
